@@ -66,6 +66,8 @@ type PropSpec struct {
 	Assumptions []string      `json:"assumptions"`
 	Stubs       []string      `json:"stubs"`
 	Outside     []string      `json:"outside"`
+	// HostFSHook: overlay go-billy's osfs.New with a hook (see hostfs.go).
+	HostFSHook bool `json:"hostFSHook,omitempty"`
 }
 
 type KnownFinding struct {
@@ -195,6 +197,16 @@ func runReplay(file string) int {
 		}
 		overlayPaths[filepath.Join(repoDir, f.Package, f.File)] = src
 	}
+	if spec.HostFSHook {
+		m, err := hostFSOverlay(rp.Property)
+		if err != nil {
+			fmt.Fprintln(os.Stderr, "error:", err)
+			return 2
+		}
+		for v, r := range m {
+			overlayPaths[v] = r
+		}
+	}
 	pkgDir := rp.Meta["package"]
 	// package name: ask go list
 	cmd := exec.Command("go", "list", "-f", "{{.Name}}", "./"+pkgDir)
@@ -315,6 +327,19 @@ func runCheck(prop, tier, only string, trace bool, workers int, noReplay bool, s
 			return 2
 		}
 		pkgDirs[f.Package] = true
+	}
+	if spec.HostFSHook {
+		m, err := hostFSOverlay(prop)
+		if err != nil {
+			fmt.Fprintln(os.Stderr, "error:", err)
+			return 2
+		}
+		for v, r := range m {
+			if err := addOverlay(v, r); err != nil {
+				fmt.Fprintln(os.Stderr, "error:", err)
+				return 2
+			}
+		}
 	}
 	var patterns []string
 	for _, h := range spec.Harnesses {
